@@ -1,250 +1,224 @@
 /-
   C10 — validation results never depend on what the schema object processed before.
-  ONLY property theorems (and the statements they need) live here.
+  ONLY property theorems (and the concrete witnesses they need) live here; the model is
+  XsVerif/Model/History.lean (port of the code as it is now), helper lemmas in XsVerif/Lemmas/History.lean.
+
+  Reading guide.  A call = the list of steps of the (possibly aborted) walk over one document; its
+  observations `(call …).2` are everything the walk reads from state that outlives a call (which
+  constraints collect fields at each element end, memoised values, the scratch context).  A history =
+  any list of calls, each complete or aborted at any step — and, inside an xsi:type block, after any
+  number of its writes (`xsiType d t (some k)`).
 -/
-import XsVerif.Model.History
+import XsVerif.Lemmas.History
 
 namespace XsVerif.Props.C10
 open XsVerif.History
 
-/-- `d` can be bound to `c` by some xsi:type widening -/
-def Widenable (sch : Sch) (c : Con) (d : Decl) : Prop := ∃ d0 t, d ∈ sch.widen c d0 t
+/-! ### the residue invariant survives every complete or aborted call, for every algorithm -/
 
-/-- the residue invariant: every added binding is a widening the schema allows (so it is an
-    addition a fresh schema would also make when it meets the same xsi:type), and every memo entry
-    is the value of the pure function -/
-def Inv (sch : Sch) (r : Res) : Prop :=
-  (∀ p ∈ r.bound, Widenable sch p.1 p.2) ∧ (∀ kv ∈ r.memo, kv.2 = sch.pure kv.1)
+theorem inv_init (sch : Sch) : Inv sch Res.init := XsVerif.History.inv_init sch
 
-theorem inv_init (sch : Sch) : Inv sch Res.init := by
-  simp [Inv, Res.init]
+example : Inv ⟨[5], [((0, 10, 5), [11])], [], id⟩ Res.init := inv_init _
 
-theorem mem_foldl_addBound (sch : Sch) (d : Decl) (t : TyId) (en : List Con) (b : List (Con × Decl))
-    (p : Con × Decl) :
-    p ∈ en.foldl (addBound sch d t) b ↔ p ∈ b ∨ (p.1 ∈ en ∧ p.2 ∈ sch.widen p.1 d t) := by
-  induction en generalizing b with
-  | nil => simp
-  | cons c en ih =>
-    rw [List.foldl_cons, ih]
-    simp only [addBound, List.mem_append, List.mem_map, List.mem_cons]
-    constructor
-    · rintro ((⟨d', hd', rfl⟩ | h) | h)
-      · exact Or.inr ⟨Or.inl rfl, hd'⟩
-      · exact Or.inl h
-      · exact Or.inr ⟨Or.inr h.1, h.2⟩
-    · rintro (h | ⟨rfl | h1, h2⟩)
-      · exact Or.inl (Or.inr h)
-      · exact Or.inl (Or.inl ⟨p.2, h2, rfl⟩)
-      · exact Or.inr ⟨h1, h2⟩
+/-- whatever a call does — on a whole document or aborted anywhere — the invariant of the residue is kept:
+    additions to `selected_by` / `identity.elements` are widenings the schema permits, memo entries are in
+    the graph of the pure function, and a recorded (type, constraint) pair means the constraint has been
+    widened for that type ("widen, then record") -/
+theorem inv_call (sch : Sch) (m : Mode) (r : Res) (doc : List Step) (h : Inv sch r) :
+    Inv sch (call sch m r doc).1 := XsVerif.History.inv_call sch m r doc h
 
-theorem lookup_mem {k v : Nat} {l : List (Nat × Nat)} (h : l.lookup k = some v) : (k, v) ∈ l := by
-  induction l with
-  | nil => simp at h
-  | cons a l ih =>
-    obtain ⟨a1, a2⟩ := a
-    simp only [List.lookup_cons] at h
-    split at h
-    · rename_i heq
-      have : k = a1 := by simpa using heq
-      cases h; subst this; exact List.mem_cons_self ..
-    · exact List.mem_cons_of_mem _ (ih h)
-
-theorem inv_step (sch : Sch) (gated : Bool) (r : Res) (s : Step) (h : Inv sch r) :
-    Inv sch (step sch gated r s).1 := by
-  obtain ⟨hb, hm⟩ := h
-  cases s with
-  | xsiType d t en =>
-    simp only [step]
-    split
-    · exact ⟨hb, hm⟩
-    · refine ⟨fun p hp => ?_, hm⟩
-      simp only at hp
-      split at hp
-      · rw [mem_foldl_addBound] at hp
-        rcases hp with hp | ⟨_, hp⟩
-        · exact hb p hp
-        · exact ⟨d, t, hp⟩
-      · exact hb p hp
-  | collect d c => exact ⟨hb, hm⟩
-  | memoCall k =>
-    simp only [step]
-    split
-    · exact ⟨hb, hm⟩
-    · refine ⟨hb, fun kv hkv => ?_⟩
-      simp only [List.mem_cons] at hkv
-      rcases hkv with rfl | hkv
-      · rfl
-      · exact hm kv hkv
-  | scratchUse dirt => exact ⟨hb, hm⟩
-
-/-- **no residue breaks the invariant**: whatever a call does — on a whole document or on any prefix of
-    it (a strict failure, a stop-validation hook and a lazy run all process a prefix of the steps) — the
-    invariant of the residue is kept. -/
-theorem inv_call (sch : Sch) (gated : Bool) (r : Res) (doc : List Step) (h : Inv sch r) :
-    Inv sch (call sch gated r doc).1 := by
-  induction doc generalizing r with
-  | nil => exact h
-  | cons s ss ih =>
-    simp only [call]
-    exact ih _ (inv_step sch gated r s h)
-
-theorem inv_call_prefix (sch : Sch) (gated : Bool) (r : Res) (doc : List Step) (k : Nat)
-    (h : Inv sch r) : Inv sch (call sch gated r (doc.take k)).1 :=
-  inv_call sch gated r _ h
-
-theorem inv_foldl (sch : Sch) (gated : Bool) (hist : List (List Step)) (r : Res) (h : Inv sch r) :
-    Inv sch (hist.foldl (fun r doc => (call sch gated r doc).1) r) := by
-  induction hist generalizing r with
-  | nil => exact h
-  | cons d ds ih => exact ih _ (inv_call sch gated r d h)
+theorem inv_call_prefix (sch : Sch) (m : Mode) (r : Res) (doc : List Step) (k : Nat) (h : Inv sch r) :
+    Inv sch (call sch m r (doc.take k)).1 := XsVerif.History.inv_call sch m r _ h
 
 /-- the invariant holds after every history of (complete or aborted) calls -/
-theorem inv_after (sch : Sch) (gated : Bool) (hist : List (List Step)) :
-    Inv sch (after sch gated hist) :=
-  inv_foldl sch gated hist _ (inv_init sch)
+theorem inv_after (sch : Sch) (m : Mode) (hist : List (List Step)) : Inv sch (after sch m hist) :=
+  XsVerif.History.inv_after sch m hist
 
-/-- hypothesis on a document, about a *fresh* run only: whenever an element whose declaration is
-    reachable through an xsi:type widening of `c` is finished inside a scope of `c`, the fresh run has
-    already bound it (the xsi:type that makes it reachable was met earlier in the same document while
-    `c` was enabled, or it is statically bound) -/
-def SelfSufficient (sch : Sch) : Res → List Step → Prop
-  | _, [] => True
-  | r, s :: ss =>
-    (match s with
-      | .collect d c => Widenable sch c d → isBound sch r c d = true
-      | _ => True) ∧ SelfSufficient sch (step sch false r s).1 ss
+/-- a call aborted INSIDE the xsi:type block (after any number `k` of its writes: between
+    `self.elements[e] = …` and `e.selected_by.add`, between `update_elements` and `xsi_types.add`, …)
+    keeps the invariant as well — this is what the order "test recorded → widen → record" buys -/
+theorem inv_abort_inside_xsi (sch : Sch) (m : Mode) (s : Res × Ctx) (d : Decl) (t : TyId) (k : Nat)
+    (h : Inv sch s.1) : Inv sch (step sch m s (.xsiType d t (some k))).1.1 :=
+  inv_step sch m s _ h
 
-theorem neutral_gen (sch : Sch) (doc : List Step) (r1 r2 : Res) (h1 : Inv sch r1) (h2 : Inv sch r2)
-    (hsub : ∀ p ∈ r2.bound, p ∈ r1.bound) (hss : SelfSufficient sch r2 doc) :
-    (call sch false r1 doc).2 = (call sch false r2 doc).2 := by
-  induction doc generalizing r1 r2 with
-  | nil => rfl
-  | cons s ss ih =>
-    obtain ⟨hs, hss'⟩ := hss
-    have i1 := inv_step sch false r1 s h1
-    have i2 := inv_step sch false r2 s h2
-    simp only [call]
-    cases s with
-    | xsiType d t en =>
-      have hsub' : ∀ p ∈ (step sch false r2 (.xsiType d t en)).1.bound,
-          p ∈ (step sch false r1 (.xsiType d t en)).1.bound := by
-        intro p hp
-        simp only [step, Bool.false_and, Bool.false_eq_true, if_false] at hp ⊢
-        split at hp
-        · rename_i hc
-          simp only [hc, if_true]
-          rw [mem_foldl_addBound] at hp ⊢
-          rcases hp with hp | hp
-          · exact Or.inl (hsub p hp)
-          · exact Or.inr hp
-        · rename_i hc
-          simp only [hc]
-          exact hsub p hp
-      have := ih _ _ i1 i2 hsub' hss'
-      simp only [step, Bool.false_and, Bool.false_eq_true, if_false] at this ⊢
-      simpa using this
-    | collect d c =>
-      have hb : isBound sch r1 c d = isBound sch r2 c d := by
-        cases hb2 : isBound sch r2 c d
-        · cases hb1 : isBound sch r1 c d
-          · rfl
-          · exfalso
-            simp only [isBound, Bool.or_eq_true, Bool.or_eq_false_iff] at hb1 hb2
-            rcases hb1 with hb1 | hb1
-            · rw [hb1] at hb2; exact absurd hb2.1 (by simp)
-            · have hw : Widenable sch c d := h1.1 (c, d) (by simpa using hb1)
-              have := hs hw
-              simp only [isBound, Bool.or_eq_true] at this
-              rcases this with h | h
-              · rw [hb2.1] at h; exact absurd h (by simp)
-              · rw [hb2.2] at h; exact absurd h (by simp)
-        · simp only [isBound, Bool.or_eq_true] at hb2 ⊢
-          rcases hb2 with hb2 | hb2
-          · exact Or.inl hb2
-          · exact Or.inr (by simpa using hsub (c, d) (by simpa using hb2))
-      have := ih r1 r2 h1 h2 hsub hss'
-      simp only [step] at this ⊢
-      rw [hb, this]
-    | memoCall k =>
-      have e1 : (step sch false r1 (.memoCall k)).2 = some (.memo (sch.pure k)) := by
-        simp only [step]
-        split
-        · rename_i v hv
-          have := h1.2 (k, v) (lookup_mem hv)
-          simp only at this
-          rw [this]
-        · rfl
-      have e2 : (step sch false r2 (.memoCall k)).2 = some (.memo (sch.pure k)) := by
-        simp only [step]
-        split
-        · rename_i v hv
-          have := h2.2 (k, v) (lookup_mem hv)
-          simp only at this
-          rw [this]
-        · rfl
-      have hsub' : ∀ p ∈ (step sch false r2 (.memoCall k)).1.bound,
-          p ∈ (step sch false r1 (.memoCall k)).1.bound := by
-        intro p hp
-        have b1 : (step sch false r1 (.memoCall k)).1.bound = r1.bound := by
-          simp only [step]; split <;> rfl
-        have b2 : (step sch false r2 (.memoCall k)).1.bound = r2.bound := by
-          simp only [step]; split <;> rfl
-        rw [b1]; rw [b2] at hp; exact hsub p hp
-      rw [e1, e2, ih _ _ i1 i2 hsub' hss']
-    | scratchUse dirt =>
-      have := ih _ _ i1 i2 (by simpa [step] using hsub) hss'
-      simp only [step] at this ⊢
-      rw [this]
+/-- nothing is ever removed from the residue by a call -/
+theorem residue_grows (sch : Sch) (m : Mode) (r : Res) (doc : List Step) :
+    (∀ p ∈ r.sel, p ∈ (call sch m r doc).1.sel) ∧ (∀ p ∈ r.elems, p ∈ (call sch m r doc).1.elems) ∧
+    (∀ p ∈ r.xsi, p ∈ (call sch m r doc).1.xsi) := by
+  simp only [call]
+  exact run_mono sch m doc (r, [])
 
-/-- **history neutrality of the repaired algorithm** (widening no longer gated by `xsi_types`):
-    after ANY history of complete or aborted calls, the observations of a call on a self-sufficient
-    document are those of a fresh schema object. -/
-theorem history_neutral (sch : Sch) (hist : List (List Step)) (doc : List Step)
-    (hss : SelfSufficient sch Res.init doc) :
-    (call sch false (after sch false hist) doc).2 = (call sch false Res.init doc).2 :=
-  neutral_gen sch doc _ _ (inv_after sch false hist) (inv_init sch)
-    (by simp [Res.init]) hss
+/-- only the xsi:type block, a first memo call and a scratch use write the residue: entering / leaving
+    elements, collecting fields and lazy counter rebuilding leave the schema object untouched -/
+theorem residue_frame (sch : Sch) (m : Mode) (s : Res × Ctx) (x : Step)
+    (h : match x with | .xsiType .. => False | .memoCall _ => False | .scratchUse _ => False | _ => True) :
+    (step sch m s x).1.1 = s.1 := by
+  cases x <;> first | rfl | exact absurd h id
 
-/-! ### the code as it is (widening gated by `xsi_types`) -/
+/-- the counters (`context.identities`) of a call never depend on the residue: they are a function of the
+    steps of THIS call alone (a new context per call) -/
+theorem counters_call_local (sch : Sch) (m : Mode) (r1 r2 : Res) (ctx : Ctx) (x : Step) :
+    (step sch m (r1, ctx) x).1.2 = (step sch m (r2, ctx) x).1.2 := step_ctx sch m r1 r2 ctx x
 
-/-- constraints 0 / 1 (`unique` with selector `.//x` on two different elements `secA` / `secB`),
-    declaration 10 = the shared global element `item`, 11 = the local element `x` of the extension
-    type 5 -/
+/-- what the last user left in the scratch context is never seen: a use observes the cleared context -/
+theorem scratch_isolated (sch : Sch) (m : Mode) (r : Res) (ctx : Ctx) (junk dirt : List Nat) :
+    (step sch m ({ r with scratch := junk }, ctx) (.scratchUse dirt)).2 = some (.scratch []) ∧
+    (step sch m ({ r with scratch := junk }, ctx) (.scratchUse dirt)).1.1 = { r with scratch := dirt } := by
+  simp [step]
+
+/-! ### the code as it is -/
+
+/-- **history neutrality of the code as it is**, on self-sufficient documents: after ANY history of
+    complete or aborted calls the observations of a call are those of a fresh schema object.
+
+    Full statement (without `selfSufficient`): FALSE for the code as it is — `history_dependent_counterexample`
+    (finding C10-F2), and `neutral_iff_selfSufficient` shows the guard is exactly the region where it holds. -/
+theorem history_neutral_partial (sch : Sch) (hist : List (List Step)) (doc : List Step)
+    (hc : complete doc = true) (hss : selfSufficient sch (Res.init, []) doc = true) :
+    (call sch .current (after sch .current hist) doc).2 = (call sch .current Res.init doc).2 := by
+  simp only [call]
+  exact neutral_gen sch doc _ _ [] ⟨inv_after sch .current hist, XsVerif.History.inv_init sch, by simp [Res.init]⟩ hc hss
+
+/-- the same for a call that is itself aborted (strict failure, stop hook, KeyboardInterrupt, abandoned
+    generator): what it observed before the abort is what a fresh schema would have shown it -/
+theorem history_neutral_prefix (sch : Sch) (hist : List (List Step)) (doc : List Step) (k : Nat)
+    (hc : complete doc = true) (hss : selfSufficient sch (Res.init, []) doc = true) :
+    (call sch .current (after sch .current hist) (doc.take k)).2 = (call sch .current Res.init (doc.take k)).2 :=
+  history_neutral_partial sch hist _ (complete_take doc k hc) (selfSufficient_take sch doc k _ hss)
+
+/-- a document that is not self-sufficient IS influenced by some history: one earlier call that meets the
+    right xsi:type inside the constraint's scope changes what the call collects -/
+theorem history_dependent_of_not_selfSufficient (sch : Sch) (doc : List Step)
+    (hc : complete doc = true) (hss : selfSufficient sch (Res.init, []) doc = false) :
+    ∃ hist, (call sch .current (after sch .current hist) doc).2 ≠ (call sch .current Res.init doc).2 := by
+  obtain ⟨c, d, ⟨d0, t, hcx, hd⟩, hall⟩ := dependent_gen sch doc Res.init [] hc hss
+  refine ⟨[[.enter [c], .xsiType d0 t none]], ?_⟩
+  have hrel : Rel sch (after sch .current [[.enter [c], .xsiType d0 t none]]) Res.init :=
+    ⟨inv_after sch .current _, XsVerif.History.inv_init sch, by simp [Res.init]⟩
+  simp only [call]
+  apply hall _ hrel
+  simp only [after, List.foldl_cons, List.foldl_nil, call, run, step, Ctx.enter, Ctx.reset, budgeted, stepWrites,
+    xsiWrites, hcx, if_true, List.any_nil, List.nil_append, Bool.false_eq_true, if_false]
+  rw [applyWrites_append]
+  apply sel_mono_writes
+  exact sat_loop hcx [(c, true)] Res.init (XsVerif.History.inv_init sch) c (List.mem_cons_self ..) d hd
+
+/-- **exact characterisation**: for the code as it is, a (complete) document gives the fresh result after
+    every history IF AND ONLY IF it is self-sufficient -/
+theorem neutral_iff_selfSufficient (sch : Sch) (doc : List Step) (hc : complete doc = true) :
+    (∀ hist, (call sch .current (after sch .current hist) doc).2 = (call sch .current Res.init doc).2) ↔
+    selfSufficient sch (Res.init, []) doc = true := by
+  constructor
+  · intro h
+    cases hss : selfSufficient sch (Res.init, []) doc
+    · obtain ⟨hist, hne⟩ := history_dependent_of_not_selfSufficient sch doc hc hss
+      exact absurd (h hist) hne
+    · rfl
+  · intro hss hist
+    exact history_neutral_partial sch hist doc hc hss
+
+/-- `selfSufficient` in words: at every element end, every enabled constraint that COULD be bound to the
+    element's declaration by some xsi:type is bound already in the run of a fresh schema -/
+theorem selfSufficient_collect (sch : Sch) (r : Res) (ctx : Ctx) (d : Decl) (xs : List Step) :
+    selfSufficient sch (r, ctx) (.collect d :: xs) = true ↔
+    (∀ c, (c, true) ∈ ctx → Widenable sch c d → isSel sch r c d = true) ∧ selfSufficient sch (r, ctx) xs = true := by
+  rw [selfSufficient_cons, Bool.and_eq_true]
+  simp only [stepOK, List.all_eq_true, step]
+  constructor
+  · rintro ⟨h1, h2⟩
+    refine ⟨fun c hc hw => ?_, h2⟩
+    have := h1 (c, true) hc
+    simpa [(widenableB_iff sch c d).2 hw] using this
+  · rintro ⟨h1, h2⟩
+    refine ⟨fun p hp => ?_, h2⟩
+    obtain ⟨c, en⟩ := p
+    cases en
+    · simp
+    · cases hw : widenableB sch c d
+      · simp
+      · simp [h1 c hp ((widenableB_iff sch c d).1 hw)]
+
+/-! ### the proposed repair of C10-F2: collection not gated by `selected_by` -/
+
+/-- with the collection driven by the open scopes alone (notes/fixes/C10-collect-ungated.patch) the
+    observations after ANY history equal a fresh schema's for EVERY document, complete or aborted -/
+theorem history_neutral_ungated (sch : Sch) (hist : List (List Step)) (doc : List Step) :
+    (call sch .ungated (after sch .ungated hist) doc).2 = (call sch .ungated Res.init doc).2 := by
+  simp only [call]
+  exact ungated_gen sch doc _ _ [] (inv_after sch .ungated hist) (XsVerif.History.inv_init sch)
+
+/-! ### concrete witnesses -/
+
+/-- constraints 0 / 1 (`unique` with selector `.//x` on two elements `secA` / `secB`), declaration
+    10 = the shared global element `item`, 11 = the local element `x` of the extension type 5,
+    12 = a global element `memb` of type 5 in the substitution group of `head` -/
 def wSch : Sch where
-  complex t := t == 5
-  widen _ d t := if d == 10 && t == 5 then [11] else []
-  base _ := []
+  complex := [5]
+  wtab := [((0, 10, 5), [11]), ((1, 10, 5), [11])]
+  base := []
   pure k := k
 
-def docA : List Step := [.xsiType 10 5 [0], .collect 11 0, .collect 11 0]
-def docB : List Step := [.xsiType 10 5 [1], .collect 11 1, .collect 11 1]
+/-- `<secA><item xsi:type="Ext"><x/><x/></item></secA>` -/
+def docA : List Step :=
+  [.enter [0], .xsiType 10 5 none, .collect 11, .collect 11, .collect 10, .leave [(0, none)]]
+/-- `<secB><item xsi:type="Ext"><x/><x/></item></secB>` -/
+def docB : List Step :=
+  [.enter [1], .xsiType 10 5 none, .collect 11, .collect 11, .collect 10, .leave [(1, none)]]
+/-- `<secA><memb><x/><x/></memb></secA>`: the `x` elements arrive through a substitution-group member, no xsi:type -/
+def docM : List Step :=
+  [.enter [0], .collect 11, .collect 11, .collect 12, .leave [(0, none)]]
+/-- `<secA><item/></secA><secB><item xsi:type="Ext">…`: the counter of `ua` exists but is disabled -/
+def docD : List Step :=
+  [.enter [0], .collect 10, .leave [(0, none)], .enter [1], .xsiType 10 5 none, .collect 11, .collect 10,
+   .leave [(1, none)]]
 
-theorem docB_selfSufficient : SelfSufficient wSch Res.init docB := by
-  refine ⟨trivial, fun _ => by decide, fun _ => by decide, trivial⟩
+example : complete docB = true ∧ selfSufficient wSch (Res.init, []) docB = true := by decide
+example : complete docM = true ∧ selfSufficient wSch (Res.init, []) docM = false := by decide
 
-/- Full statement: `history_neutral` with `gated = true` (the code as it is).  It is FALSE: once the
-   pair (item, Ext) is in `xsi_types` the widening is skipped also for constraints that were not enabled
-   when it was first met, so after document A the `x` elements of document B are not collected for `ub`
-   (finding C10-F1; witness replayed on the real code by the harness).  The repaired algorithm gives the
-   fresh result on the same history. -/
+/-- finding C10-F1 (fixed by 962be1e), kept as a theorem about the OLD step: once the type was recorded the
+    widening was skipped also for constraints that were not enabled when it was first met, so after document A
+    the `x` elements of document B were not collected for `ub`; the code as it is gives the fresh result. -/
 theorem history_counterexample :
-    (call wSch true (after wSch true [docA]) docB).2 = [.collected false, .collected false] ∧
-    (call wSch true Res.init docB).2 = [.collected true, .collected true] ∧
-    (call wSch false (after wSch false [docA]) docB).2 = (call wSch false Res.init docB).2 := by
+    (call wSch .old (after wSch .old [docA]) docB).2 ≠ (call wSch .old Res.init docB).2 ∧
+    (call wSch .old (after wSch .old [docA]) docB).2.take 1 = [.collected [(1, true)] []] ∧
+    (call wSch .old Res.init docB).2.take 1 = [.collected [(1, true)] [1]] ∧
+    (call wSch .current (after wSch .current [docA]) docB).2 = (call wSch .current Res.init docB).2 := by
   decide
 
-/-- the region in which the code as it is stays neutral: every recorded xsi:type use has been widened
-    for every constraint (true of a fresh schema; NOT preserved by the gated algorithm) -/
-def Saturated (sch : Sch) (r : Res) : Prop :=
-  ∀ dt ∈ r.xsi, sch.complex dt.2 = true → ∀ c d', d' ∈ sch.widen c dt.1 dt.2 → (c, d') ∈ r.bound
+/-- finding C10-F2: the code as it is, on a document that is NOT self-sufficient.  After document A (which
+    binds `x` to `ua` through `xsi:type`), the `x` children of a substitution-group member inside `secA` are
+    collected (and a duplicate is reported); a fresh schema does not collect them.  The ungated collection
+    gives the same on both. -/
+theorem history_dependent_counterexample :
+    (call wSch .current (after wSch .current [docA]) docM).2.take 1 = [.collected [(0, true)] [0]] ∧
+    (call wSch .current Res.init docM).2.take 1 = [.collected [(0, true)] []] ∧
+    (call wSch .ungated (after wSch .ungated [docA]) docM).2 = (call wSch .ungated Res.init docM).2 := by
+  decide
 
-theorem saturated_not_preserved :
-    Saturated wSch Res.init ∧ ¬ Saturated wSch (after wSch true [docA]) := by
-  constructor
-  · intro dt h; simp [Res.init] at h
-  · intro h
-    have := h (10, 5) (by decide) (by decide) 1 11 (by decide)
-    revert this
-    decide
+/-- the order matters.  A variant of the block that records the (type, constraint) pair for every counter of
+    the context — also the DISABLED ones, without widening them (seeded change C10-2) — breaks the invariant:
+    the pair (10, 5, 0) is recorded while `x` is not bound to constraint 0 … -/
+def recordDisabled (r : Res) (ctx : Ctx) (d : Decl) (t : TyId) : Res :=
+  applyWrites r (ctx.map fun p => Write.pair d t p.1)
+
+theorem record_disabled_breaks_inv :
+    let r := recordDisabled (call wSch .current Res.init docD).1 [(0, false), (1, true)] 10 5
+    ¬ Inv wSch r := by
+  intro r h
+  have := h.pairs 10 5 0 (by decide) 11 (by decide)
+  revert this
+  decide
+
+/-- … and from that residue the code as it is no longer gives the fresh result on the (self-sufficient) document A -/
+theorem record_disabled_counterexample :
+    let r := recordDisabled (call wSch .current Res.init docD).1 [(0, false), (1, true)] 10 5
+    selfSufficient wSch (Res.init, []) docA = true ∧
+    (call wSch .current r docA).2 ≠ (call wSch .current Res.init docA).2 := by
+  decide
+
+/-- a call aborted between `update_elements` and `xsi_types.add((type, identity))` (2 of the 4 writes of the
+    block done) leaves a residue from which document B still gets the fresh observations -/
+example : (call wSch .current (after wSch .current [[.enter [1], .xsiType 10 5 (some 2)]]) docB).2
+    = (call wSch .current Res.init docB).2 := by decide
 
 end XsVerif.Props.C10
